@@ -634,6 +634,9 @@ func (sc *modScanner) contract(ct *Contract) {
 	x := sc.x
 	if ct.Logs != "" {
 		sc.ghostClass(ct.Logs)
+	} else if ct.Extern {
+		// calls of external functions under an assumed contract are ghost-logged under their own name
+		sc.ghostClass(ct.Key)
 	}
 	if ct.ModStatic && ct.Fn != nil {
 		sc.body(ct.Fn, 0)
